@@ -474,6 +474,10 @@ def standard_streams(ctx, n_seed_cfgs=1, n_mut=200, n_soup=300, n_bytes=100, n_g
         cases.append(ctx.case("childline", gen.child_line_program(rng), gen.random_cfg(rng)))
     for text, tag in placement_sample(ctx):
         cases.append(ctx.case("placement", text, gen.random_cfg(rng), meta={"tag": tag}))
+    for t, widths in gen.RARE_STMTS:
+        for w in widths:
+            for bs in (0, 1):
+                cases.append(ctx.case("rare", t, (w, bs, 1, 0, 2, 2, 0)))
     for t in gen.RARE_DECLS:
         for _ in range(3):
             t2 = gen.relayout(t, rng)
@@ -556,6 +560,9 @@ def wellformed_texts(ctx, n_gram):
             out.append(("begin\n  %s\n  Foo;\nend.\n" % d, "directive", 120))
     for t in gen.RARE_DECLS:
         out.append((t, "decls", ctx.rng.choice([30, 60, 120])))
+    for t, widths in gen.RARE_STMTS:
+        for w in widths:
+            out.append((t, "rare", w))
     return out
 
 
@@ -2153,6 +2160,20 @@ def run_c11(ctx):
             return "type TFoo = class\n  " + rng.choice(["procedure ", "function "]) + name() + "(" + groups_ + ")" + rng.choice(["", ": Integer"]) + ";" + rng.choice(["", " virtual;", " overload; static;"]) + "\nend;\n", None
         depth = rng.randrange(0, 3)
         return "procedure P;\nbegin\n" + "begin\n" * depth + body + "\n" + "end;\n" * depth + "end;\n", body
+    for _ in range(ctx.n(20, 400)):
+        # (child-line programs at a window of consecutive widths: the heap's rebuild threshold and the child-line options show there)
+        text = gen.child_line_program(rng)
+        if len(text) > 1500:
+            continue
+        L = max(len(l) for l in text.split("\n"))
+        base = gen.random_cfg(rng)
+        lo = rng.randrange(14, max(15, min(L, 90)))
+        g = []
+        for w in range(lo, lo + ctx.n(10, 24)):
+            c = ctx.case("childwidths", text, (w,) + tuple(base[1:]))
+            cases.append(c)
+            g.append((w, c))
+        groups.append(g)
     for _ in range(ctx.n(40, 600)):
         text, body = chain_statement(rng)
         L = max(len(l) for l in text.split("\n"))
